@@ -631,6 +631,41 @@ def run_popcount_big(shape, seed, signed=False):
     return [], None
 
 
+def run_mv_bp_big(shape, seed):
+    """mv_to_bp / bp_to_mv on arrays of a million values and more (all eight values present): plane i of the result holds bit i of every
+    value, little-endian along the last axis, padding lanes 0; the round trip returns the array"""
+    import random
+    from kyupy import logic
+    rng = np.random.default_rng(seed)
+    a = rng.integers(0, 8, size=shape, dtype=np.uint8)
+    bp, err = call(logic.mv_to_bp, a)
+    if err is not None:
+        return [], f'mv_to_bp raises {err} on shape {shape}'
+    if a.ndim == 1:      # documented: a vector is one pattern over many signals (a column)
+        a = a[:, np.newaxis]
+        shape = tuple(a.shape)
+    n = shape[-1]
+    want_shape = tuple(shape[:-1]) + (3, (n + 7) // 8)
+    if tuple(bp.shape) != want_shape or bp.dtype != np.uint8:
+        return [], f'mv_to_bp of shape {shape} returns shape {tuple(bp.shape)} dtype {bp.dtype}, expected {want_shape} uint8'
+    bits = np.unpackbits(bp, axis=-1, bitorder='little')
+    for i in range(3):
+        got = bits[..., i, :n]
+        exp = (a >> i) & 1
+        if not np.array_equal(got, exp):
+            k = tuple(int(v) for v in np.argwhere(got != exp)[0])
+            return [], f'mv_to_bp of shape {shape} (seed {seed}): plane {i} of element {k} (value {int(a[k])}) is {int(got[k])}'
+        if bits[..., i, n:].any():
+            return [], f'mv_to_bp of shape {shape}: padding lanes of plane {i} are not 0'
+    back, err = call(logic.bp_to_mv, bp)
+    if err is not None:
+        return [], f'bp_to_mv raises {err} on shape {tuple(bp.shape)}'
+    if not np.array_equal(np.asarray(back)[..., :n], a):
+        k = tuple(int(v) for v in np.argwhere(np.asarray(back)[..., :n] != a)[0])
+        return [], f'bp_to_mv(mv_to_bp(a)) differs from a at {k}: {int(np.asarray(back)[k])} for {int(a[k])} (shape {shape}, seed {seed})'
+    return [], None
+
+
 # ---- the eight values and the whole 1-character domain (finite part, run completely every time) ----------------
 def table_oracle():
     from kyupy import logic as lg
